@@ -11,8 +11,8 @@ import numpy as np
 
 NOT_GIVEN, NOSPIN = -1, -2
 RTOL = 1e-11
-DERIVED = ["tidal_heating_global", "dUdM", "dUdw", "dUdO", "k2", "neg_imk2", "mantle_heating", "dedt", "dadt", "dndt", "tidal_susceptibility"]
-INPUTS = ["eccentricity", "obliquity", "orbital_frequency", "spin_frequency", "mantle_viscosity", "mantle_shear"]
+DERIVED = ["tidal_heating_global", "dUdM", "dUdw", "dUdO", "k2", "neg_imk2", "mantle_heating", "dedt", "dadt", "dndt", "tidal_susceptibility", "mantle_radiogenic", "core_radiogenic"]
+INPUTS = ["eccentricity", "obliquity", "orbital_frequency", "spin_frequency", "mantle_viscosity", "mantle_shear", "time"]
 
 
 class LW:
@@ -35,6 +35,7 @@ class LW:
         self.s_vals = self.n_vals if sync else [2.3 * self.n_vals[0], 1.37 * self.n_vals[1]]
         self.t_vals = [1500.0, 1650.0]
         self.str_vals = [(1.0e20, 5.0e10), (3.0e17, 3.0e10)]
+        self.time_vals = [100.0, 2500.0]        # Myr
         self.table = {}
 
     def fresh(self):
@@ -100,6 +101,12 @@ class LW:
         elif act == "LayerSetStrength":
             s, = p
             m.set_strength(viscosity=self.str_vals[s][0], shear_modulus=self.str_vals[s][1])
+        elif act == "OrbitSetTime":
+            t, = p
+            if t % 2 == 0:
+                o.time = self.time_vals[t]
+            else:
+                o.universal_time = self.time_vals[t]
         else:
             raise ValueError("unknown action " + act)
 
@@ -112,14 +119,20 @@ class LW:
         d["neg_imk2"] = None if not w.global_negative_imk_by_orderl else w.global_negative_imk_by_orderl.get(2)
         d["mantle_heating"] = m.tidal_heating
         d["mantle_viscosity"], d["mantle_shear"] = m.viscosity, m.shear_modulus
+        d["mantle_radiogenic"] = m.radiogenic_heating
+        d["core_radiogenic"] = [l for l in w if not l.is_tidal][0].radiogenic_heating
+        d["time"] = w.time
         d["dedt"] = o.get_eccentricity_time_derivative(w)
         d["dadt"] = o.get_semi_major_axis_time_derivative(w)
         d["dndt"] = o.get_orbital_motion_time_derivative(w)
         return d
 
     def place(self, w, o, st, thermal_first):
-        e, obl, orb, spin, tm = st
+        e, obl, orb, spin, tm = st[:5]
+        tw = st[5] if len(st) > 5 else []
         m = self.mantle(w)
+        if tw != [] and tw is not None:
+            o.time = self.time_vals[tw]
 
         def thermal():
             if tm:
